@@ -350,6 +350,19 @@ theorem walk_each_once (g : Graph) (hwf : g.WF) (incl : List Nat) (hincl : ∀ i
       · rw [List.reverse_reverse]; exact hord
       · exact hord
 
+/-- Soundness of a walk with EVERY option (excludes, since, until, max_entries, date/topo order, reverse) on
+every acyclic history and EVERY clock: whenever the walk returns, its entries are pairwise distinct, at most
+`max_entries`, each reachable from a start point, none of them an exclude start point, all inside the
+`since..until` window.  (What is not proved for this general case — that nothing is missing and nothing
+reachable from an exclude is left when stamps are monotone — rests on the correspondence and the oracle; the
+property itself does not claim it for non-monotone stamps.) -/
+theorem walk_sound (g : Graph) (o : Walk.Opts) (rk : Nat → Nat) (hrk : ∀ c p, p ∈ g.parents c → rk p < rk c)
+    (out : List Nat) (h : Walk.walk g o = some out) :
+    out.Nodup ∧ (∀ m, o.maxEntries = some m → out.length ≤ m) ∧
+    ∀ c, c ∈ out → (∃ i, i ∈ o.incl ∧ Anc g c i) ∧ c ∉ o.excl ∧
+      (∀ m, o.since = some m → m ≤ g.ts c) ∧ (∀ m, o.untl = some m → g.ts c ≤ m) :=
+  Walk.walk_sound_all rk hrk h
+
 /-! ## 6. negation witnesses (F14 and two more): the unchanged code is not exact on skewed / equal clocks -/
 
 /-- chain `0 ← 1 ← 2` (1's parent is 0, 2's parent is 1) with stamps (1,0,0) -/
@@ -461,6 +474,11 @@ example : ∃ out, Walk.walk cross5 (plainWalk [3, 4] true false) = some out ∧
     (true = true → (if false then out.reverse else out).Pairwise (fun a b => a ∉ cross5.parents b)) :=
   walk_each_once cross5 (by unfold Graph.WF; decide) [3, 4] (by decide) true false id
     (ofLists_rank _ _ id (by decide))
+
+/-- a walk with an exclude, a window and a limit on a skewed history (hypotheses of `walk_sound`) -/
+example : Walk.walk (Graph.ofLists [[], [0], [0], [1, 2], [1, 2]] [5, 9, 1, 4, 7])
+    { incl := [3, 4], excl := [2], topo := true, reverse := true, maxEntries := some 2, since := some 4,
+      untl := some 8 } = some [3, 4] := by decide
 
 /-- `_topo_reorder` on an order that lists a parent first -/
 example : Walk.topoReorder cross5.parents [0, 3, 1, 4, 2] = some [3, 4, 1, 2, 0] := by decide
